@@ -22,7 +22,7 @@ pub static PROP: Prop = Prop {
 pub const FAULTS: [&str; 19] = [
     "arity-few", "arity-many", "none", "throw-str", "throw-num", "throw-foo", "bad-index", "type-mismatch", "missing-key", "assert", "type-hint", "unpack-size", "not-callable", "null-access", "in-interp", "in-list", "in-tuple", "in-map", "in-call-args",
 ];
-pub const CARRIERS: [&str; 8] = ["call", "each", "keep", "fold", "gen-tuple", "overload", "display", "seq"];
+pub const CARRIERS: [&str; 10] = ["call", "each", "keep", "fold", "gen-tuple", "overload", "display", "lit-call", "cmp-overload", "seq"];
 
 fn is_builder_fault(f: &str) -> bool {
     matches!(f, "in-interp" | "in-list" | "in-tuple" | "in-map")
@@ -194,7 +194,7 @@ impl<'a> EG<'a> {
     }
 
     fn carrier_block(&mut self, depth: u32, under_try: u32, frames: u32, in_display: bool) -> Vec<E> {
-        let weights: [u32; 7] = if in_display { [28, 18, 9, 9, 14, 14, 8] } else { [25, 15, 8, 8, 14, 15, 15] };
+        let weights: [u32; 9] = if in_display { [24, 14, 8, 8, 12, 12, 8, 8, 6] } else { [18, 11, 7, 7, 11, 11, 11, 14, 10] };
         let c = self.s.weighted(&weights);
         let name = CARRIERS[c];
         self.flags.carriers.push(name);
@@ -260,6 +260,43 @@ impl<'a> EG<'a> {
                 body.extend(sub);
                 out.push(E::Assign(bx(id(&o)), None, bx(E::Map(vec![("@+".into(), E::Fn(vec![arg(&x)], None, body))]))));
                 out.push(E::Assign(bx(id(&r)), None, bx(E::Bin(Op::Add, bx(id(&o)), bx(E::Int(3))))));
+            }
+            "lit-call" => {
+                // the call is an element of a literal that is under construction; when the sub-block
+                // recovers by itself (try inside), the enclosing literal must be completed correctly
+                let mut body = vec![self.marker(&format!("enter {f}"))];
+                body.extend(sub);
+                out.push(E::Assign(bx(id(&f)), None, bx(E::Fn(vec![], None, body))));
+                let call = E::Call(bx(id(&f)), vec![]);
+                let tr1 = E::Call(bx(id("tr")), vec![(E::Int(1), false)]);
+                let lit = match self.s.below(6) {
+                    0 => E::List(vec![tr1, call, E::Int(3)]),
+                    1 => E::Tuple(vec![E::Int(1), E::List(vec![tr1, call]), E::Int(4)]),
+                    2 => E::List(vec![E::Tuple(vec![tr1, call]), E::Int(5)]),
+                    3 => E::Str(vec![SPart::Lit("a".into()), SPart::Expr(E::List(vec![tr1, call]), None), SPart::Lit("b".into())]),
+                    4 => E::List(vec![E::Str(vec![SPart::Lit("s".into()), SPart::Expr(call, None)]), tr1]),
+                    _ => E::List(vec![E::List(vec![E::List(vec![tr1, call])]), E::Str(vec![SPart::Lit("t".into())])]),
+                };
+                out.push(E::Assign(bx(id(&r)), None, bx(lit)));
+            }
+            "cmp-overload" => {
+                // the sub-block runs inside @< or @==, reached directly or through a derived comparison
+                let o = self.fresh("o");
+                let x = self.fresh("x");
+                let variant = self.s.below(5);
+                let mut body = vec![E::Print(vec![E::Str(vec![SPart::Lit("cmp ".into()), SPart::Expr(id(&x), None)])])];
+                body.extend(sub);
+                body.push(E::Bool(self.s.chance(50)));
+                let plain = |v: bool| E::Fn(vec![arg("cx")], None, vec![E::Bool(v)]);
+                let (entries, expr) = match variant {
+                    0 => (vec![("@<".to_string(), E::Fn(vec![arg(&x)], None, body))], E::Bin(Op::Lt, bx(id(&o)), bx(E::Int(3)))),
+                    1 => (vec![("@<".to_string(), E::Fn(vec![arg(&x)], None, body)), ("@==".to_string(), plain(false))], E::Bin(Op::Gt, bx(id(&o)), bx(E::Int(3)))),
+                    2 => (vec![("@<".to_string(), plain(false)), ("@==".to_string(), E::Fn(vec![arg(&x)], None, body))], E::Bin(Op::Le, bx(id(&o)), bx(E::Int(3)))),
+                    3 => (vec![("@<".to_string(), E::Fn(vec![arg(&x)], None, body)), ("@==".to_string(), plain(true))], E::Bin(Op::Ge, bx(id(&o)), bx(E::Int(3)))),
+                    _ => (vec![("@==".to_string(), E::Fn(vec![arg(&x)], None, body))], E::Bin(Op::Ne, bx(id(&o)), bx(E::Int(3)))),
+                };
+                out.push(E::Assign(bx(id(&o)), None, bx(E::Map(entries))));
+                out.push(E::Assign(bx(id(&r)), None, bx(expr)));
             }
             _ => {
                 // @display reached from interpolation
